@@ -4,6 +4,7 @@ whose radio answers and holds bytes in RX_ADDR_P2..5.
 -/
 import NrfProofs.C09History
 import NrfProofs.C08Ops
+import NrfProofs.InitDetect
 import NrfModel.BleDev
 
 set_option linter.unusedSimpArgs false
@@ -37,12 +38,6 @@ theorem exec_regReadBytes (reg : Nat) (s : DrvState) :
   simp only [exec_bind, exec_xfer, exec_pure]
   rfl
 
-/-- ACTIVATE is sent without the W_REGISTER bit -/
-theorem exec_regWrite_activate (s : DrvState) :
-    exec (regWrite 0x50 0x73) s = (.ok (), s.spiStep [0x50, 0x73]) := by
-  unfold regWrite
-  rfl
-
 theorem exec_clearStatusFlags' (s : DrvState) : exec clearStatusFlags s = (.ok (), s.spiStep [0x27, 0x70]) := by
   unfold clearStatusFlags
   exact exec_regWrite_nat 7 0x70 s (by decide) (by decide)
@@ -56,8 +51,9 @@ theorem inRange_status {d : Rf24} (h : InRange d) (st : Nat) : InRange { d with 
 
 /-! ### `__init__` in three parts -/
 
-/-- first part of `__init__`: probe the chip, capture the RX addresses, read FEATURE around ACTIVATE -/
-def initHead : DrvM (Nat × Nat) := do
+/-- first part of `__init__`: probe the chip, capture the RX addresses; the second part is the variant
+    detection (`detect`, `NrfProofs/InitDetect.lean`) -/
+def initHead : DrvM Unit := do
   setCE false
   regWrite CONFIGURE (← getD).config
   if (← regRead CONFIGURE) ≠ (← getD).config then raise .runtimeError
@@ -69,16 +65,6 @@ def initHead : DrvM (Nat × Nat) := do
   let p5 ← regRead (RX_ADDR_P0 + 5)
   modD fun d => { d with pipes0 := p0, pipes1 := p1, pipesN := [p2, p3, p4, p5],
                          openPipes := 0, isPlus := false }
-  let f ← regRead TX_FEATURE
-  modD fun d => { d with features := f }
-  regWrite 0x50 0x73
-  let after ← regRead TX_FEATURE
-  return (f, after)
-
-/-- the variant decision -/
-def initVariant (f after : Nat) : DrvM Unit := do
-  if f = after then modD fun d => { d with isPlus := true }
-  else if after = 0 then regWrite 0x50 0x73
 
 /-- the rest of `__init__` -/
 def initTail : DrvM Unit := do
@@ -95,8 +81,8 @@ def initTail : DrvM Unit := do
 theorem ite_bind'' {α β} (c : Prop) [Decidable c] (a b : DrvM α) (k : α → DrvM β) :
     (if c then a else b) >>= k = if c then a >>= k else b >>= k := by split <;> rfl
 
-theorem init_eq : init = (do let (f, after) ← initHead; initVariant f after; initTail) := by
-  unfold init initHead initVariant initTail
+theorem init_eq : init = (do initHead; detect; initTail) := by
+  unfold init initHead detect initTail
   simp only [bind_assoc, pure_bind, ite_bind'']
 
 /-- what the later parts need of the shadows after the first -/
@@ -108,16 +94,15 @@ structure HeadOk (d : Rf24) : Prop where
   op : d.openPipes = 0
 
 theorem initHead_spec (s : DrvState) (hw : s.Wf) (hc : s.d.config = 0x0E) (hb : ∀ x ∈ s.cfg.rxAddrN, x < 256) :
-    ∃ fa s', exec initHead s = (.ok fa, s') ∧ Reach true s s' ∧ HeadOk s'.d := by
+    ∃ s', exec initHead s = (.ok (), s') ∧ Reach true s s' ∧ HeadOk s'.d ∧ s'.d.isPlus = false := by
   unfold initHead
   have h14 : (14 : Nat) ≤ 255 := by decide
   simp (config := {decide := true}) only [drvx, hw, hc, exec_regWrite_nat _ _ _ h14 (by decide : (0:Nat) ≠ 0x50),
     exec_regRead_cfg 0 _ (by decide) (by decide), Radio.wr_config _ _ (by decide : 14 < 128), ↓reduceIte,
     exec_regReadBytes, Nat.reduceAdd, exec_regRead_cfg 12 _ (by decide) (by decide),
     exec_regRead_cfg 13 _ (by decide) (by decide), exec_regRead_cfg 14 _ (by decide) (by decide),
-    exec_regRead_cfg 15 _ (by decide) (by decide), exec_regRead_cfg 29 _ (by decide) (by decide),
-    exec_regWrite_activate, not_true_eq_false]
-  refine ⟨_, _, rfl, by reach_steps, ?_⟩
+    exec_regRead_cfg 15 _ (by decide) (by decide), not_true_eq_false]
+  refine ⟨_, rfl, by reach_steps, ?_, by simp only [spiStep_dN, modShadow_dN, ceStep_dN]⟩
   refine ⟨?_, ?_, ?_, ⟨rfl, ?_⟩, ?_⟩
   · simp only [spiStep_dN, modShadow_dN, ceStep_dN, hc]
   · simp only [spiStep_dN, modShadow_dN, ceStep_dN]; exact rdBytes_length _ _ (by decide)
@@ -133,136 +118,12 @@ end Nrf
 namespace Nrf
 open Rf24 Spec
 
-theorem initVariant_spec (f after : Nat) (s : DrvState) :
-    ∃ s', exec (initVariant f after) s = (.ok (), s') ∧ Reach true s s' ∧
-      s'.d = { s.d with isPlus := s'.d.isPlus, status := s'.d.status } := by
-  unfold initVariant
-  by_cases h1 : f = after
-  · simp only [h1, ↓reduceIte, exec_modD']
-    exact ⟨_, rfl, by reach_steps, by simp only [modShadow_dN]⟩
-  · by_cases h2 : after = 0
-    · subst h2
-      simp only [h1, ↓reduceIte, exec_regWrite_activate]
-      exact ⟨_, rfl, by reach_steps, by simp only [spiStep_dN]⟩
-    · simp only [h1, h2, ↓reduceIte, exec_pure]
-      exact ⟨_, rfl, .refl _, rfl⟩
-
-/-- the shadows after `__init__` -/
-structure InitOk (d : Rf24) : Prop where
-  range : InRange d
-  user : d.pipe0ReadAddr = none
-  config : d.config = 0x0C
-  op : d.openPipes = 0
-  aa : d.aa = 0x3F
-  dyn : d.dynPl = 0x3F
-  feat : d.features = 5
-
-/-- `initTail`, first half: the default shadows -/
-def initShadow : DrvM Unit := do
-  modD fun d => { d with features := 5, pipe0ReadAddr := none }
-  let ta ← regReadBytes TX_ADDRESS
-  modD fun d => { d with txAddress := ta, retrySetup := 0x5F, rfSetup := 0x07, dynPl := 0x3F,
-                         aa := 0x3F, channel := 76, addrLen := 5, plLen := [32, 32, 32, 32, 32, 32] }
-
-/-- `initTail`, second half: `with self:` flush and clear -/
-def initDump : DrvM Unit := do
-  enter
-  flushRx
-  flushTx
-  clearStatusFlags
-  Rf24.exit
-
-theorem initTail_eq : initTail = (do initShadow; initDump) := by
-  unfold initTail initShadow initDump
-  simp only [bind_assoc]
-
-/-- the shadows between the two halves -/
-structure ShadowOk (d : Rf24) : Prop where
-  range : InRange d
-  user : d.pipe0ReadAddr = none
-  config : d.config = 0x0E
-  op : d.openPipes = 0
-  aa : d.aa = 0x3F
-  dyn : d.dynPl = 0x3F
-  feat : d.features = 5
-
-theorem initShadow_spec (s : DrvState) (h : HeadOk s.d) :
-    ∃ s', exec initShadow s = (.ok (), s') ∧ Reach true s s' ∧ ShadowOk s'.d := by
-  obtain ⟨hc, hp0, hp1, ⟨hpnl, hpn⟩, hop⟩ := h
-  unfold initShadow
-  simp only [exec_bind, exec_modD', exec_regReadBytes, TX_ADDRESS]
-  refine ⟨_, rfl, by reach_steps, ?_⟩
-  simp only [modShadow_dN, spiStep_dN]
-  refine ⟨?_, rfl, hc, hop, rfl, rfl, rfl⟩
-  refine ⟨?_, by dsimp only; decide, by dsimp only; decide, ?_, by dsimp only; decide, by dsimp only; decide,
-    by dsimp only; decide, by dsimp only; decide, by dsimp only; decide, by dsimp only; decide, hp0, hp1,
-    rdBytes_length _ _ (by decide), ⟨hpnl, hpn⟩, by dsimp only; decide⟩
-  · show s.d.config < 128
-    rw [hc]; decide
-  · show s.d.openPipes < 64
-    rw [hop]; decide
-
-theorem initDump_spec (X : DrvState) (h : ShadowOk X.d) :
-    ∃ s', exec initDump X = (.ok (), s') ∧ Reach true X s' ∧ InitOk s'.d := by
-  obtain ⟨hrX, hu, hc, hop, haa, hdyn, hfeat⟩ := h
-  unfold initDump
-  simp only [exec_bind, enter_exec X hrX, flushRx, flushTx, exec_regCmd, exec_clearStatusFlags']
-  generalize hY : (((enterState X).spiStep [0xE2]).spiStep [0xE1]).spiStep [0x27, 0x70] = Y
-  have hreachY : Reach true X Y := by
-    rw [← hY]
-    exact .spi _ (.spi _ (.spi _ (enterState_reach X)))
-  have hYd : ∃ st, Y.d = { X.d with config := X.d.config ||| 2, status := st } := by
-    rw [← hY, spiStep_dN, spiStep_dN, spiStep_dN, enterState_d]
-    exact ⟨_, rfl⟩
-  obtain ⟨stY, hYd⟩ := hYd
-  have hYc : Y.d.config = 0x0E := by rw [hYd]; show X.d.config ||| 2 = 0x0E; rw [hc]; decide
-  rw [exit_exec Y (by rw [hYc]; decide)]
-  refine ⟨_, rfl, hreachY.trans (exitState_reach Y), ?_⟩
-  have hZd := exitState_d Y
-  generalize (exitState Y).d.status = stZ at hZd
-  have hrY : InRange Y.d := by rw [hYd]; exact inRange_enter hrX _
-  rw [hZd]
-  refine ⟨inRange_exit hrY _, ?_, ?_, ?_, ?_, ?_, ?_⟩
-  · show Y.d.pipe0ReadAddr = none
-    rw [hYd]; exact hu
-  · show Y.d.config &&& 0x7D = 0x0C
-    rw [hYc]; decide
-  · show Y.d.openPipes = 0
-    rw [hYd]; exact hop
-  · show Y.d.aa = 0x3F
-    rw [hYd]; exact haa
-  · show Y.d.dynPl = 0x3F
-    rw [hYd]; exact hdyn
-  · show Y.d.features = 5
-    rw [hYd]; exact hfeat
-
-theorem exec_bind_of' {α β} {x : DrvM α} {f : α → DrvM β} {s s1 : DrvState} {a : α}
-    (h : exec x s = (.ok a, s1)) : exec (x >>= f) s = exec (f a) s1 := by rw [exec_bind, h]
-
-/-- **`RF24.__init__`** on an object with the constructor's CONFIG shadow (0x0E), in any world
-whose radio exists and holds bytes in RX_ADDR_P2..5: no exception, in-range shadows, no reading
-address, TX role, the documented defaults -/
-theorem init_spec (s : DrvState) (hw : s.Wf) (hc : s.d.config = 0x0E) (hb : ∀ x ∈ s.cfg.rxAddrN, x < 256) :
-    ∃ s', exec init s = (.ok (), s') ∧ Reach true s s' ∧ InitOk s'.d := by
-  rw [init_eq]
-  obtain ⟨fa, s1, hex1, hre1, hok1⟩ := initHead_spec s hw hc hb
-  rw [exec_bind_of' hex1]
-  obtain ⟨f, after⟩ := fa
-  simp only []
-  obtain ⟨s2, hex2, hre2, hd2⟩ := initVariant_spec f after s1
-  rw [exec_bind_of' hex2, initTail_eq]
-  have hok2 : HeadOk s2.d := by
-    rw [hd2]
-    exact ⟨hok1.1, hok1.2, hok1.3, hok1.4, hok1.5⟩
-  obtain ⟨s3, hex3, hre3, hok3⟩ := initShadow_spec s2 hok2
-  rw [exec_bind_of' hex3]
-  obtain ⟨s4, hex4, hre4, hok4⟩ := initDump_spec s3 hok3
-  exact ⟨s4, hex4, ((hre1.trans hre2).trans hre3).trans hre4, hok4⟩
-
-end Nrf
-
-namespace Nrf
-open Rf24 Spec
+/-- the detection's steps are driver steps -/
+theorem DetReach.toReach {s t : DrvState} (h : DetReach s t) : Reach true s t := by
+  induction h with
+  | refl => exact .refl _
+  | spi out _ ih => exact .spi out ih
+  | mod f hf _ ih => exact .shadow f ih hf
 
 /-! ### the register shape is kept by everything the driver does -/
 
@@ -343,5 +204,272 @@ theorem Reach.shape {b : Bool} {s s' : DrvState} (h : Reach b s s') (hw : s.Wf) 
     have hf := (Reach.frame h0 hw).2.1
     rw [ceStep_cfg _ _ hf]
     exact ih
+
+/-! ### what keeps the chip variant and the ACTIVATE state -/
+
+theorem Radio.xfer_plus (r : Radio) (o : Bytes) : (r.xfer o).1.plus = r.plus := by
+  unfold Radio.xfer
+  cases o with
+  | nil => rfl
+  | cons c d =>
+    simp only
+    unfold Radio.runCmd
+    split <;> try rfl
+    · simp only
+      split
+      · rfl
+      · unfold Radio.writeReg; split <;> first | rfl | (split <;> rfl)
+    · unfold Radio.readPayload; split <;> rfl
+    all_goals (unfold Radio.writePayload; split <;> rfl)
+
+/-- driver steps keep the chip variant -/
+theorem Reach.plus_eq {b : Bool} {s s' : DrvState} (h : Reach b s s') (hw : s.Wf) : s'.cfg.plus = s.cfg.plus := by
+  induction h with
+  | refl => rfl
+  | @spi s1 out h0 ih =>
+    rw [spiStep_cfg _ _ (Reach.frame h0 hw).2.1, ← ih]
+    exact Radio.xfer_plus _ _
+  | @shadow s1 f h0 hf ih => rw [modShadow_cfg _ _ hf]; exact ih
+  | sleep n _ ih => exact ih
+  | @ce s1 v hb h0 ih => rw [ceStep_cfg _ _ (Reach.frame h0 hw).2.1]; exact ih
+
+theorem Radio.decodeCmd_activate {c : Nat} (h : Radio.decodeCmd c = .activate) : c = 0x50 := by
+  unfold Radio.decodeCmd at h
+  repeat' split at h
+  all_goals first | assumption | cases h
+
+/-- only ACTIVATE (command byte 0x50) changes the accessibility of the feature registers -/
+theorem Radio.xfer_activated (r : Radio) (c : Nat) (d : Bytes) (hc : c ≠ 0x50) :
+    (r.xfer (c :: d)).1.activated = r.activated := by
+  unfold Radio.xfer
+  simp only
+  generalize hk : Radio.decodeCmd c = k
+  cases k with
+  | activate => exact absurd (Radio.decodeCmd_activate hk) hc
+  | wRegister reg =>
+    simp only [Radio.runCmd]
+    split
+    · rfl
+    · unfold Radio.writeReg; split <;> first | rfl | (split <;> rfl)
+  | rRxPayload => simp only [Radio.runCmd]; unfold Radio.readPayload; split <;> rfl
+  | wTxPayload => simp only [Radio.runCmd]; unfold Radio.writePayload; split <;> rfl
+  | wTxPayloadNoAck => simp only [Radio.runCmd]; unfold Radio.writePayload; split <;> rfl
+  | wAckPayload p => simp only [Radio.runCmd]; unfold Radio.writePayload; split <;> rfl
+  | _ => rfl
+
+theorem spiStep_activated (s : DrvState) (c : Nat) (d : Bytes) (hw : s.Wf) (hc : c ≠ 0x50) :
+    (s.spiStep (c :: d)).cfg.activated = s.cfg.activated := by
+  rw [spiStep_cfg _ _ hw]
+  exact Radio.xfer_activated _ _ _ hc
+
+theorem ceStep_activated (s : DrvState) (v : Bool) (hw : s.Wf) : (s.ceStep v).cfg.activated = s.cfg.activated := by
+  rw [ceStep_cfg _ _ hw]
+
+theorem modShadow_activated (s : DrvState) (f : Rf24 → Rf24) (hf : (f s.d).rid = s.d.rid) :
+    (s.modShadow f).cfg.activated = s.cfg.activated := by
+  rw [modShadow_cfg _ _ hf]
+
+/-- `__enter__` never sends ACTIVATE -/
+theorem enterState_activated (s : DrvState) (hw : s.Wf) : (enterState s).cfg.activated = s.cfg.activated := by
+  unfold enterState
+  simp (config := {decide := true}) only [spiStep_activated, ceStep_activated, modShadow_activated, spiStep_wf,
+    ceStep_wf, modShadow_wf', hw, ne_eq, not_false_eq_true]
+
+/-- nor does `__exit__` -/
+theorem exitState_activated (s : DrvState) (hw : s.Wf) : (exitState s).cfg.activated = s.cfg.activated := by
+  unfold exitState
+  simp (config := {decide := true}) only [sleepStep_cfg, spiStep_activated, ceStep_activated, modShadow_activated,
+    spiStep_wf, ceStep_wf, modShadow_wf', hw, ne_eq, not_false_eq_true]
+
+/-- the shadows after `__init__` -/
+structure InitOk (d : Rf24) : Prop where
+  range : InRange d
+  user : d.pipe0ReadAddr = none
+  config : d.config = 0x0C
+  op : d.openPipes = 0
+  aa : d.aa = 0x3F
+  dyn : d.dynPl = 0x3F
+  feat : d.features = 5
+
+/-- `initTail`, first half: the default shadows -/
+def initShadow : DrvM Unit := do
+  modD fun d => { d with features := 5, pipe0ReadAddr := none }
+  let ta ← regReadBytes TX_ADDRESS
+  modD fun d => { d with txAddress := ta, retrySetup := 0x5F, rfSetup := 0x07, dynPl := 0x3F,
+                         aa := 0x3F, channel := 76, addrLen := 5, plLen := [32, 32, 32, 32, 32, 32] }
+
+/-- `initTail`, second half: `with self:` flush and clear -/
+def initDump : DrvM Unit := do
+  enter
+  flushRx
+  flushTx
+  clearStatusFlags
+  Rf24.exit
+
+theorem initTail_eq : initTail = (do initShadow; initDump) := by
+  unfold initTail initShadow initDump
+  simp only [bind_assoc]
+
+/-- the shadows between the two halves -/
+structure ShadowOk (d : Rf24) : Prop where
+  range : InRange d
+  user : d.pipe0ReadAddr = none
+  config : d.config = 0x0E
+  op : d.openPipes = 0
+  aa : d.aa = 0x3F
+  dyn : d.dynPl = 0x3F
+  feat : d.features = 5
+
+theorem initShadow_spec (s : DrvState) (h : HeadOk s.d) :
+    ∃ s', exec initShadow s = (.ok (), s') ∧ Reach true s s' ∧
+      (s.Wf → s'.cfg.activated = s.cfg.activated ∧ s'.d.isPlus = s.d.isPlus) ∧ ShadowOk s'.d := by
+  obtain ⟨hc, hp0, hp1, ⟨hpnl, hpn⟩, hop⟩ := h
+  unfold initShadow
+  simp only [exec_bind, exec_modD', exec_regReadBytes, TX_ADDRESS]
+  refine ⟨_, rfl, by reach_steps, ?_, ?_⟩
+  · intro hw
+    refine ⟨?_, by simp only [modShadow_dN, spiStep_dN]⟩
+    simp (config := {decide := true}) only [spiStep_activated, modShadow_activated, spiStep_wf, modShadow_wf', hw,
+      ne_eq, not_false_eq_true]
+  simp only [modShadow_dN, spiStep_dN]
+  refine ⟨?_, rfl, hc, hop, rfl, rfl, rfl⟩
+  refine ⟨?_, by dsimp only; decide, by dsimp only; decide, ?_, by dsimp only; decide, by dsimp only; decide,
+    by dsimp only; decide, by dsimp only; decide, by dsimp only; decide, by dsimp only; decide, hp0, hp1,
+    rdBytes_length _ _ (by decide), ⟨hpnl, hpn⟩, by dsimp only; decide⟩
+  · show s.d.config < 128
+    rw [hc]; decide
+  · show s.d.openPipes < 64
+    rw [hop]; decide
+
+theorem initDump_spec (X : DrvState) (h : ShadowOk X.d) :
+    ∃ s', exec initDump X = (.ok (), s') ∧ Reach true X s' ∧
+      (X.Wf → s'.cfg.activated = X.cfg.activated ∧ s'.d.isPlus = X.d.isPlus) ∧ InitOk s'.d := by
+  obtain ⟨hrX, hu, hc, hop, haa, hdyn, hfeat⟩ := h
+  unfold initDump
+  simp only [exec_bind, enter_exec X hrX, flushRx, flushTx, exec_regCmd, exec_clearStatusFlags']
+  generalize hY : (((enterState X).spiStep [0xE2]).spiStep [0xE1]).spiStep [0x27, 0x70] = Y
+  have hreachY : Reach true X Y := by
+    rw [← hY]
+    exact .spi _ (.spi _ (.spi _ (enterState_reach X)))
+  have hYd : ∃ st, Y.d = { X.d with config := X.d.config ||| 2, status := st } := by
+    rw [← hY, spiStep_dN, spiStep_dN, spiStep_dN, enterState_d]
+    exact ⟨_, rfl⟩
+  obtain ⟨stY, hYd⟩ := hYd
+  have hYc : Y.d.config = 0x0E := by rw [hYd]; show X.d.config ||| 2 = 0x0E; rw [hc]; decide
+  rw [exit_exec Y (by rw [hYc]; decide)]
+  refine ⟨_, rfl, hreachY.trans (exitState_reach Y), ?_, ?_⟩
+  · intro hwX
+    have hwY : Y.Wf := (hreachY.frame hwX).2.1
+    refine ⟨?_, ?_⟩
+    · rw [exitState_activated Y hwY, ← hY]
+      have hwE : (enterState X).Wf := ((enterState_reach X).frame hwX).2.1
+      simp (config := {decide := true}) only [spiStep_activated, spiStep_wf, hwE, ne_eq, not_false_eq_true,
+        enterState_activated X hwX]
+    · rw [exitState_d Y, hYd]
+  have hZd := exitState_d Y
+  generalize (exitState Y).d.status = stZ at hZd
+  have hrY : InRange Y.d := by rw [hYd]; exact inRange_enter hrX _
+  rw [hZd]
+  refine ⟨inRange_exit hrY _, ?_, ?_, ?_, ?_, ?_, ?_⟩
+  · show Y.d.pipe0ReadAddr = none
+    rw [hYd]; exact hu
+  · show Y.d.config &&& 0x7D = 0x0C
+    rw [hYc]; decide
+  · show Y.d.openPipes = 0
+    rw [hYd]; exact hop
+  · show Y.d.aa = 0x3F
+    rw [hYd]; exact haa
+  · show Y.d.dynPl = 0x3F
+    rw [hYd]; exact hdyn
+  · show Y.d.features = 5
+    rw [hYd]; exact hfeat
+
+theorem regsOf_writeReg7 (r : Radio) (d : Bytes) : regsOf (r.writeReg 7 d) = regsOf r := rfl
+
+/-- the registers after the `with` block of `__init__` when the feature registers are accessible:
+    every configuration register equals its shadow -/
+theorem initDump_regs (X : DrvState) (h : ShadowOk X.d) (hw : X.Wf) (hv : X.cfg.featureVisible = true)
+    (hs : RadioShape X.cfg) : regsOf (exec initDump X).2.cfg = shadowRegs (exec initDump X).2.d := by
+  obtain ⟨hrX, hu, hc, hop, haa, hdyn, hfeat⟩ := h
+  unfold initDump
+  simp only [exec_bind, enter_exec X hrX, flushRx, flushTx, exec_regCmd, exec_clearStatusFlags']
+  have hwE : (enterState X).Wf := ((enterState_reach X).frame hw).2.1
+  have hE := (enterState_cfg X hw hrX hv hs).1
+  generalize hY : (((enterState X).spiStep [0xE2]).spiStep [0xE1]).spiStep [0x27, 0x70] = Y
+  have hreachY : Reach true X Y := by
+    rw [← hY]
+    exact .spi _ (.spi _ (.spi _ (enterState_reach X)))
+  have hwY : Y.Wf := (hreachY.frame hw).2.1
+  have hYd : ∃ st, Y.d = { X.d with config := X.d.config ||| 2, status := st } := by
+    rw [← hY, spiStep_dN, spiStep_dN, spiStep_dN, enterState_d]
+    exact ⟨_, rfl⟩
+  obtain ⟨stY, hYd⟩ := hYd
+  have hYc : Y.d.config = 0x0E := by rw [hYd]; show X.d.config ||| 2 = 0x0E; rw [hc]; decide
+  have hYcfg : regsOf Y.cfg = regsOf (enterState X).cfg := by
+    rw [← hY, spiStep_wlit _ 0x27 [0x70] ((spiStep_wf _ _).2 ((spiStep_wf _ _).2 hwE)) (by decide) (by simp),
+      regsOf_writeReg7, spiStep_cmd _ 0xE1 [] ((spiStep_wf _ _).2 hwE) (by decide), spiStep_cmd _ 0xE2 [] hwE (by decide)]
+  rw [exit_exec Y (by rw [hYc]; decide)]
+  show regsOf (exitState Y).cfg = shadowRegs (exitState Y).d
+  rw [exitState_cfg Y hwY (by rw [hYc]; decide), exitState_d Y]
+  show ({ regsOf Y.cfg with config := Y.d.config &&& 0x7D } : CfgRegs) = { shadowRegs Y.d with config := Y.d.config &&& 0x7D }
+  rw [hYcfg, hE, hYd]
+  rfl
+
+theorem exec_bind_of' {α β} {x : DrvM α} {f : α → DrvM β} {s s1 : DrvState} {a : α}
+    (h : exec x s = (.ok a, s1)) : exec (x >>= f) s = exec (f a) s1 := by rw [exec_bind, h]
+
+/-- **`RF24.__init__`** on an object with the constructor's CONFIG shadow (0x0E), in any world
+whose radio exists and holds bytes in RX_ADDR_P2..5 — plus or non-plus chip, feature registers locked
+or unlocked, any FEATURE content: no exception, in-range shadows, no reading address, TX role, the
+documented defaults; **`_is_plus_variant` is the chip's variant and the feature registers are
+accessible afterwards** -/
+theorem init_variant_spec (s : DrvState) (hw : s.Wf) (hc : s.d.config = 0x0E) (hb : ∀ x ∈ s.cfg.rxAddrN, x < 256) :
+    ∃ s', exec init s = (.ok (), s') ∧ Reach true s s' ∧ InitOk s'.d ∧
+      s'.d.isPlus = s.cfg.plus ∧ s'.cfg.plus = s.cfg.plus ∧ s'.cfg.featureVisible = true ∧
+      (RadioShape s.cfg → regsOf s'.cfg = shadowRegs s'.d) := by
+  rw [init_eq]
+  obtain ⟨s1, hex1, hre1, hok1, hip1⟩ := initHead_spec s hw hc hb
+  rw [exec_bind_of' hex1]
+  have hw1 : s1.Wf := (hre1.frame hw).2.1
+  have hp1 : s1.cfg.plus = s.cfg.plus := hre1.plus_eq hw
+  obtain ⟨s2, ft, hex2, hat2, _⟩ := detect_spec s1 hw1 hip1
+  have hre2 := hat2.reach.toReach
+  rw [exec_bind_of' hex2, initTail_eq]
+  have hw2 : s2.Wf := (hre2.frame hw1).2.1
+  obtain ⟨fs, st, hd2⟩ := hat2.d
+  have hok2 : HeadOk s2.d := by
+    rw [hd2]
+    exact ⟨hok1.1, hok1.2, hok1.3, hok1.4, hok1.5⟩
+  obtain ⟨s3, hex3, hre3, hk3, hok3⟩ := initShadow_spec s2 hok2
+  rw [exec_bind_of' hex3]
+  have hw3 : s3.Wf := (hre3.frame hw2).2.1
+  obtain ⟨s4, hex4, hre4, hk4, hok4⟩ := initDump_spec s3 hok3
+  have hre := ((hre1.trans hre2).trans hre3).trans hre4
+  have hplus : s4.cfg.plus = s.cfg.plus := hre.plus_eq hw
+  have hvis2 : s2.cfg.featureVisible = true := by
+    unfold Radio.featureVisible
+    rw [hat2.cfg]
+    show (s1.cfg.plus || (if s1.cfg.plus = true then s1.cfg.activated else true)) = true
+    cases s1.cfg.plus <;> rfl
+  have hvis3 : s3.cfg.featureVisible = true := by
+    have h23 : s3.cfg.plus = s2.cfg.plus := hre3.plus_eq hw2
+    unfold Radio.featureVisible at hvis2 ⊢
+    rw [h23, (hk3 hw2).1]; exact hvis2
+  refine ⟨s4, hex4, hre, hok4, ?_, hplus, ?_, ?_⟩
+  · rw [(hk4 hw3).2, (hk3 hw2).2, hat2.isPlus, hp1]
+  · have h34 : s4.cfg.plus = s3.cfg.plus := hre4.plus_eq hw3
+    unfold Radio.featureVisible at hvis3 ⊢
+    rw [h34, (hk4 hw3).1]; exact hvis3
+  · intro hs
+    have hs3 : RadioShape s3.cfg := (((hre1.trans hre2).trans hre3).shape hw hs).1
+    have := initDump_regs s3 hok3 hw3 hvis3 hs3
+    rw [hex4] at this
+    exact this
+
+/-- the part of `init_variant_spec` about the shadows -/
+theorem init_spec (s : DrvState) (hw : s.Wf) (hc : s.d.config = 0x0E) (hb : ∀ x ∈ s.cfg.rxAddrN, x < 256) :
+    ∃ s', exec init s = (.ok (), s') ∧ Reach true s s' ∧ InitOk s'.d := by
+  obtain ⟨s', h1, h2, h3, _⟩ := init_variant_spec s hw hc hb
+  exact ⟨s', h1, h2, h3⟩
 
 end Nrf
